@@ -11,7 +11,9 @@ def build(kind, kmkind, loc):
     from klepto import keymaps as KM
     km = {'keymap': KM.keymap(), 'stringmap': KM.stringmap(), 'stringmap-nonflat': KM.stringmap(flat=False),
           'picklemap-dill': KM.picklemap(serializer='dill'), 'picklemap-nonflat': KM.picklemap(flat=False, serializer='pickle'),
-          'hashmap-md5': KM.hashmap(algorithm='md5'), 'hashmap-nonflat': KM.hashmap(flat=False, algorithm='sha1')}[kmkind]
+          'hashmap-md5': KM.hashmap(algorithm='md5'), 'hashmap-nonflat': KM.hashmap(flat=False, algorithm='sha1'),
+          'stringmap-typed': KM.stringmap(typed=True), 'hashmap-md5-typed': KM.hashmap(algorithm='md5', typed=True),
+          'picklemap-nonflat-typed': KM.picklemap(flat=False, typed=True, serializer='pickle')}[kmkind]
     if kind == 'dir':
         ar = A.dir_archive(loc, cached=True)
     elif kind == 'file':
@@ -38,6 +40,8 @@ if __name__ == '__main__':
         f.load()                 # what a later session does: bring the archive in
         f.__cache__().clear()    # and make sure every answer has to come from the archive itself
     for a, k in CALLS:
+        if mode == 'read':
+            k = dict(reversed(list(k.items())))      # the later session spells the same calls with the keywords the other way round
         f(*a, **k)
     if mode == 'write':
         f.dump()
